@@ -210,6 +210,59 @@ def _factories():
     return out
 
 
+def _construction_factories():
+    """every scheduler class that takes a random_seed, incl. the convenience subclasses that forward constructor arguments"""
+    from syne_tune.config_space import uniform, randint, choice
+    from syne_tune.optimizer.schedulers.fifo import FIFOScheduler
+    from syne_tune.optimizer.schedulers.hyperband import HyperbandScheduler
+    from syne_tune.optimizer.schedulers.pbt import PopulationBasedTraining
+    from syne_tune.optimizer.schedulers.median_stopping_rule import MedianStoppingRule
+    from syne_tune.optimizer.schedulers.synchronous.hyperband_impl import (
+        SynchronousGeometricHyperbandScheduler,
+        GeometricDifferentialEvolutionHyperbandScheduler,
+    )
+    from syne_tune.optimizer.schedulers.synchronous.hyperband import SynchronousHyperbandScheduler
+    from syne_tune.optimizer.schedulers.synchronous.dehb import DifferentialEvolutionHyperbandScheduler
+
+    space = {"x": uniform(0.0, 1.0), "n": randint(1, 20), "c": choice(["a", "b", "c"]), "epochs": 9}
+    rungs = [(3, 1), (1, 3)]
+    common = dict(metric="loss", mode="min", resource_attr="epoch")
+    sync = dict(common, max_resource_attr="epochs", search_options={"debug_log": False})
+    out = {
+        "FIFOScheduler(random)": lambda sd: FIFOScheduler(space, searcher="random", metric="loss", mode="min", random_seed=sd),
+        "FIFOScheduler(grid)": lambda sd: FIFOScheduler({"n": randint(1, 4), "c": choice(["a", "b", "c"])}, searcher="grid", metric="loss", mode="min", random_seed=sd),
+        "HyperbandScheduler(promotion, 2 brackets)": lambda sd: HyperbandScheduler(space, searcher="random", type="promotion", max_t=9, grace_period=1, reduction_factor=3, brackets=2, random_seed=sd, **common),
+        "MedianStoppingRule(FIFO)": lambda sd: MedianStoppingRule(FIFOScheduler(space, searcher="random", metric="loss", mode="min", random_seed=sd), resource_attr="epoch"),
+        "PopulationBasedTraining": lambda sd: PopulationBasedTraining(space, max_t=9, population_size=3, perturbation_interval=2, random_seed=sd, **common),
+        "SynchronousHyperbandScheduler": lambda sd: SynchronousHyperbandScheduler(space, bracket_rungs=[rungs], random_seed=sd, **sync),
+        "SynchronousGeometricHyperbandScheduler": lambda sd: SynchronousGeometricHyperbandScheduler(space, grace_period=1, reduction_factor=3, max_resource_level=9, random_seed=sd, **sync),
+        "DifferentialEvolutionHyperbandScheduler": lambda sd: DifferentialEvolutionHyperbandScheduler(space, rungs_first_bracket=rungs, random_seed=sd, **sync),
+        "GeometricDifferentialEvolutionHyperbandScheduler": lambda sd: GeometricDifferentialEvolutionHyperbandScheduler(space, grace_period=1, reduction_factor=3, max_resource_level=9, random_seed=sd, **sync),
+    }
+    return out
+
+
+def _first_suggestions(mk, sd, global_seed, count=4):
+    """construct under a given state of the global generators, then ask for the first configurations"""
+    import random
+    import numpy as np
+    from datetime import datetime
+    from syne_tune.backend.trial_status import Trial
+
+    np.random.seed(global_seed)
+    random.seed(global_seed)
+    sched = mk(sd)
+    out = []
+    for i in range(count):
+        sug = sched.suggest(i)
+        if sug is None or sug.config is None:
+            out.append(None)
+            continue
+        out.append(sorted((k, repr(v)) for k, v in sug.config.items()))
+        sched.on_trial_add(Trial(trial_id=i, config=sug.config, creation_time=datetime(2020, 1, 1)))
+    return out
+
+
 def monitor_twins(tier="quick", seed=0):
     import json as _json
     import subprocess
@@ -220,6 +273,21 @@ def monitor_twins(tier="quick", seed=0):
     viol = []
     n = 0
     traces = {}
+    # the user's random_seed must reach the scheduler whatever the global generators hold when it is CONSTRUCTED, and
+    # different seeds must matter (otherwise the twin comparison would be vacuous)
+    for name, mk in _construction_factories().items():
+        n += 1
+        try:
+            a = _first_suggestions(mk, 5, 1000 + seed)
+            b = _first_suggestions(mk, 5, 2000 + seed)
+            c = [_first_suggestions(mk, sd, 1000 + seed) for sd in (6, 7, 8)]
+        except Exception as e:
+            viol.append({"clause": "seed-reaches-the-scheduler-at-construction", "scheduler": name, "raised": repr(e)[:200]})
+            continue
+        if a != b:
+            viol.append({"clause": "seed-reaches-the-scheduler-at-construction", "scheduler": name, "global_state_1": repr(a)[:200], "global_state_2": repr(b)[:200]})
+        elif all(x == a for x in c) and "grid" not in name:
+            viol.append({"clause": "seed-reaches-the-scheduler-at-construction", "scheduler": name, "note": "four different random_seed values give identical suggestions", "suggestions": repr(a)[:200]})
     for name, mk in facs.items():
         a = _history(mk, steps, False, seed)
         b = _history(mk, steps, True, seed + 1)
@@ -246,9 +314,9 @@ def monitor_twins(tier="quick", seed=0):
                     a, b = mine[name], other.get(name) or []
                     k = next((i for i in range(min(len(a), len(b))) if a[i] != b[i]), min(len(a), len(b)))
                     viol.append({"clause": "independent-of-hash-randomisation", "scheduler": name, "first_difference_at_event": k, "this_process": repr(a[k:k + 1])[:200], "other_hash_seed": repr(b[k:k + 1])[:200]})
-    return {"evaluations": n, "distinct": len(facs), "clauses": ["independent-of-global-generators", "independent-of-hash-randomisation"], "violations": viol, "traces": traces, "samples": [{"scheduler": k, "trace_head": repr(v[:3])[:200]} for k, v in list(traces.items())[:2]], "summary": "%d schedulers x %d events, twin with perturbed global generators + second process with another PYTHONHASHSEED" % (len(facs), steps)}
+    return {"evaluations": n, "distinct": len(facs), "clauses": ["independent-of-global-generators", "independent-of-hash-randomisation", "seed-reaches-the-scheduler-at-construction"], "violations": viol, "traces": traces, "samples": [{"scheduler": k, "trace_head": repr(v[:3])[:200]} for k, v in list(traces.items())[:2]], "summary": "%d schedulers x %d events, twin with perturbed global generators + second process with another PYTHONHASHSEED" % (len(facs), steps)}
 
 
 from pyvc.native import native_monitor  # noqa: E402
 
-EXTRA_CHECKS = [static_effects, native_monitor("C11", "contracts.c11", "monitor_twins", "twin-runs", "12 model-free schedulers x 40 events (120 in the thorough tier)")]
+EXTRA_CHECKS = [static_effects, native_monitor("C11", "contracts.c11", "monitor_twins", "twin-runs", "12 model-free schedulers x 40 events (120 in the thorough tier); 9 scheduler classes constructed under two states of the global generators, first 4 suggestions")]
